@@ -117,3 +117,11 @@ Theorem C17_source_build_pre_encoded_url :
                (Ok (build_pre_encoded B scheme authority user password host port path qs fragment)).
 Proof. exact gen_build_pre_encoded_url_ok. Qed.
 Print Assumptions C17_source_build_pre_encoded_url.
+
+(** ... and URL.build, another way to put a path under an authority / to write a port / a host
+    (statement and comment: C07_source_build) *)
+From Yarl Require Import Model.Url Model.GenTypes Model.GenQTypes Generated.UrlGen Proofs.GenBuildProofs.
+Theorem C17_source_build : forall (O : oracles) (B : backend) (a : build_args),
+  same_outcome (gen_build O B a) (build O B a).
+Proof. exact gen_build_ok. Qed.
+Print Assumptions C17_source_build.
